@@ -62,7 +62,7 @@ RUNTIME_NOTE = ("Partial with respect to the Go runtime: goroutines are interlea
                 "such an operation, the Go memory model and the garbage collector are not modelled. Race-freedom is argued from regenerated syntactic facts "
                 "and observed with the race detector in the thorough tier, not proved.")
 PROPS["C10"] = {
-    "families": ["C10"],
+    "families": ["C10"], "modules": ["C10", "C10b"],
     "gen_deps": [],
     "race": True,
     "rule": "real util.MessageStream driven through NewMessageStream with a scripted in-memory connection and a recording parser (or the real "
@@ -71,12 +71,12 @@ PROPS["C10"] = {
             "failure after every byte of a frame; seeded scheduling noise in Read/Parse/consumer. Observed: multiset of delivered frames (re-encoded), "
             "errors published, buffers torn while owned by a parser, buffers shared by two parsers. Non-trivial = at least one frame delivered.",
     "trivial_outputs": ["frames=- errs=0 torn=0 shared=0", "frames=- errs=1 torn=0 shared=0"],
-    "level_text": "Kernel-checked theorems over two models of util.MessageStream's inbound side: (F1) the byte-at-a-time de-framer transcribed from inbound(): any partition of the byte stream into reads gives the same result; for every sequence of well-formed frames followed by a proper prefix of a frame, exactly the complete frames are handed over, intact, once, in order, and the incomplete one is not (induction over bytes, unbounded frame sizes and counts). (F2) a transition system of reader, any number of parser goroutines, consumer, buffer pool, error and shutdown channels with all parameters universally quantified: in every reachable state of every schedule frames are conserved (delivered ⊆ script as multisets; exactly once at quiescence of a failure-free run), buffers are conserved (never in two hands), at most one error is published. Tie: the real stream is run on chunked scripts under scheduling noise and compared with the de-framer model; ownership violations (torn/shared buffers) are observed directly.",
+    "level_text": "Kernel-checked theorems over two models of util.MessageStream's inbound side: (F1) the byte-at-a-time de-framer transcribed from inbound(): any partition of the byte stream into reads gives the same result; for every sequence of well-formed frames followed by a proper prefix of a frame, exactly the complete frames are handed over, intact, once, in order, and the incomplete one is not (induction over bytes, unbounded frame sizes and counts). (F2) a transition system of reader, any number of parser goroutines, consumer, buffer pool, error and shutdown channels with all parameters universally quantified: in every reachable state of every schedule frames are conserved (delivered ⊆ script as multisets; exactly once at quiescence of a failure-free run), buffers are conserved (never in two hands), at most one error is published. Props/C10b.lean (17 theorems) refines this to buffer CONTENTS (Model/Stream/PoolSys: each buffer has an identity and a content, the reader runs the Go loop body byte by byte over any chunking): every buffer in pool.Empty is empty; the reader's buffer holds exactly the received prefix of the current frame; every buffer handed to a parser holds exactly one well-formed frame of the script; the reader is the de-framer (C10b_reader_is_deframer); delivered = script as multisets at quiescence, byte-identical; after a read error nothing but complete frames is delivered and the partial frame never is; every PoolSys run maps to a StreamSys run (refinement), and two negative results: without Reset() before the return to the pool, or with buffers created with a length instead of a capacity, a delivered message is not a frame of the script (C10b_reset_needed, C10b_initial_length_zero_needed). Tie: the real stream is run on chunked scripts under scheduling noise and compared with the de-framer model; ownership violations (torn/shared buffers) are observed directly.",
     "level_note": RUNTIME_NOTE + " The transition system is hand-written from stream.go (channel operations listed in Gen.utilSites); frames still queued in pool.Full when the parsers receive the shutdown signal after a failure are not delivered (allowed by the statement; the check accepts any sub-multiset there).",
     "assumptions": COMMON_ASSUMPTIONS + [RUNTIME_NOTE],
 }
 PROPS["C11"] = {
-    "families": ["C11"],
+    "families": ["C11"], "modules": ["C11", "C11b"],
     "gen_deps": [],
     "race": True,
     "rule": "1..64 producer goroutines x 1..80 messages of 8..7000 bytes each through m.Outbound with seeded scheduling noise; every conn.Write "
@@ -85,7 +85,7 @@ PROPS["C11"] = {
             "MessageStreams in one process send REAL library messages (packet-out, flow-mod, echo) to connections whose Write looks at the bytes only at the end "
             "of a delay - every connection must carry exactly the encodings of its own messages (computed beforehand from equal twin values).",
     "trivial_outputs": ["ok 0"],
-    "level_text": "Kernel-checked invariant over a transition system of any number of producers, a FIFO channel of any capacity and one writer: for every producer, (written ++ held by writer ++ queued ++ not yet submitted) is exactly its submission sequence; hence per-producer order, prefix property in every reachable state of every schedule, exactly-once at quiescence, contiguous frames. The single-writer / one-Write-per-message premises are regenerated syntactic facts about util/stream.go checked by decide. Tie: the real stream is driven by concurrent producers and every Write is checked.",
+    "level_text": "Kernel-checked invariant over a transition system of any number of producers, a FIFO channel of any capacity and one writer: for every producer, (written ++ held by writer ++ queued ++ not yet submitted) is exactly its submission sequence; hence per-producer order, prefix property in every reachable state of every schedule, exactly-once at quiescence, contiguous frames. The single-writer / one-Write-per-message premises are regenerated syntactic facts about util/stream.go checked by decide. Props/C11b.lean (31 theorems; Model/Stream/OutFault): the same system with a Write that may fail after accepting any k bytes (or a deadline failure): the wire is always whole messages ++ a prefix of the one failed message, empty while the writer is alive; it is a prefix of a complete interleaving of the submissions that respects every producer's order (what the outfault op checks on the real code); after a failure nothing is ever written again (the Go code calls log.Fatalf: the failed message is lost — C11b_failure_loses, outside the property, which quantifies over working connections); re-framing the wire with the C10 de-framer gives back exactly the written messages; refinement to OutSys in both directions; independence of connections: the states a connection can reach in a product of n connections are exactly those it reaches alone from its own submissions. C11_no_shared_encoder_storage: the regenerated list of package-level variables contains nothing an encoder could keep a buffer in. Tie: the real stream is driven by concurrent producers and every Write is checked; real library messages on several connections with late-looking writers (outreal); a Write that times out after a partial write (outfault).",
     "level_note": RUNTIME_NOTE + " A net.Conn that performs short writes without error is outside the model (the code ignores the byte count).",
     "assumptions": COMMON_ASSUMPTIONS + [RUNTIME_NOTE],
 }
